@@ -45,6 +45,8 @@ def fmt(x, mode):
         return 'nonfinite'
     if mode == 'q':
         return int(math.floor(Fraction(x) * 65536 + HALF))
+    if mode == 'm':
+        return '.'                      # shapes and mask only: the values are judged by the oracle with a scaled tolerance
     return ratstr(x)
 
 def opd_sx(o):
@@ -90,6 +92,9 @@ def _call(case, op):
         a, b = mk(case['a']), mk(case['b'])
         if via == 'vdot': return a.dot(b)
         if via == 'matmul': return a * b
+        if via == 'imatmul':
+            a *= b                       # in-place matrix product: judged like a * b, on the object that was updated
+            return a
         if via == 'rotate': return a.rotate(b)
         if via == 'unrotate': return a.unrotate(b)
         return Qube.dot(a, b, case['ax1'], case['ax2'])
@@ -152,9 +157,27 @@ def _call(case, op):
         return Quaternion.from_euler(mk(case['ai']), mk(case['aj']), mk(case['ak']), case['axes'])
     if op == 'inverse':
         a = mk(case['a'])
+        if via == 'reciprocal': return a.reciprocal()
+        if via == 'rtruediv': return 1.0 / a
         return a.inverse(nozeros=True) if case.get('nozeros') else a.inverse()
     if op == 'mdiv':
+        if via == 'idiv':
+            a = mk(case['a'])
+            a /= mk(case['b'])
+            return a
         return mk(case['a']) / mk(case['b'])
+    if op == 'mscal':
+        a, b = mk(case['a']), mk(case['b'])
+        if via == 'mul': return a * b
+        if via == 'rmul': return b * a
+        if via == 'imul':
+            a *= b
+            return a
+        if via == 'div': return a / b
+        if via == 'idiv':
+            a /= b
+            return a
+        raise KeyError(via)
     if op == 'twovec':
         return Matrix3.twovec(mk(case['a']), case['axis1'], mk(case['b']), case['axis2'])
     if op == 'spin':
@@ -195,7 +218,7 @@ def request(case):
         ax1, ax2 = case.get('ax1'), case.get('ax2')
         via = case.get('via', 'qube')
         if via in ('vdot', 'vcross'): ax1, ax2 = 0, 0
-        if via in ('matmul', 'rotate'): ax1, ax2 = -1, 0
+        if via in ('matmul', 'imatmul', 'rotate'): ax1, ax2 = -1, 0
         if via == 'unrotate': ax1, ax2 = -2, 0
         return ['c16', mode, op, opd_sx(case['a']), opd_sx(case['b']), ax1, ax2]
     if op in ('outer', 'emul', 'ediv', 'qmul', 'fromparts'):
@@ -418,7 +441,7 @@ def judge(case):
 def j_dot(case, r, kind='dot'):
     a, b = case['a'], case['b']
     via = case.get('via', 'qube')
-    ax = {'vdot': (0, 0), 'vcross': (0, 0), 'matmul': (-1, 0), 'rotate': (-1, 0), 'unrotate': (-2, 0)}.get(via)
+    ax = {'vdot': (0, 0), 'vcross': (0, 0), 'matmul': (-1, 0), 'imatmul': (-1, 0), 'rotate': (-1, 0), 'unrotate': (-2, 0)}.get(via)
     ax1, ax2 = ax if ax else (case.get('ax1', 0), case.get('ax2', 0))
     ref = ref_bilinear(kind, a, b, ax1, ax2)
     if ref is None:
@@ -763,6 +786,27 @@ def j_inverse(case, r):
     if not np.array_equal(before, np.asarray(m._values_)):
         return ('inverse:operand-modified', 'Matrix.inverse() changed the values of its operand')
     return None
+
+def j_mscal(case, r):
+    """matrix / vector times or divided by a Scalar, out of place and in place: element-wise reference, mask union,
+    zero divisors masked"""
+    a, b = case['a'], case['b']
+    out = bshape(a['shape'], b['shape'])
+    if out is None:
+        return None
+    item = a['numer'] + a['denom']
+    A = bc(vals_of(a), a, out, item)
+    B = bc(vals_of(b), b, out, []).reshape(out + (1,) * len(item))
+    mask = or_masks(out, a, b)
+    if case['via'] in ('div', 'idiv'):
+        zero = np.broadcast_to(B == 0, A.shape).reshape(out + (-1,)).any(axis=-1) if A.size else np.zeros(out, dtype=bool)
+        with np.errstate(all='ignore'):
+            ref = A / np.where(B == 0, 1.0, B)
+        mask = mask | zero
+    else:
+        ref = A * B
+    return check(r, case, 'matrix %s scalar' % case['via'], out, a['numer'], a['denom'], ref, mask,
+                 scale=np.abs(ref[np.isfinite(ref)]).max() if np.isfinite(ref).any() else 1.)
 
 def j_mdiv(case, r):
     a, b = case['a'], case['b']
